@@ -504,8 +504,9 @@ def decRun (t : Tick) (e : Env) (w : Store) (i : Nat) (k : DecKind) (st : Status
   let (k1, ns, cancel) := decUpdate e k0 c1.status
   let (c2, trCancel) := if cancel then stopInv c1 else (c1, [])
   if ns ≠ .running then
-    -- Decorator.stop(ns): terminate; stop a RUNNING child
-    let (c3, trStop) := if c2.status = .running then stopInv c2 else (c2, [])
+    -- Decorator.stop(ns): terminate; ns = INVALID stops the child unconditionally (priority-interrupt handling: only
+    -- a child that answered INVALID can make a stock decorator's update() answer INVALID), otherwise a RUNNING child
+    let (c3, trStop) := if ns = .invalid ∨ c2.status = .running then stopInv c2 else (c2, [])
     pure (dec i (decTerminate ns k1) ns c3, w2, [.enter i] ++ tr ++ trCancel ++ trStop ++ [.yld i ns])
   else
     pure (dec i k1 ns c2, w2, [.enter i] ++ tr ++ trCancel ++ [.yld i ns])
